@@ -209,7 +209,7 @@ class App:
                         if rm is not None:
                             rm.remove()
             elif op == 'dispatch':
-                return self.dispatch(c['path'], c['verb'])
+                return self.dispatch(c['path'], c['verb'], c.get('sent'))
             elif op == 'by_name':
                 r = router[c['name']]
                 return None if r is None else _route_obs(self.ctx, router, r, self.hid_of)
@@ -283,7 +283,9 @@ class App:
         except KeyError:
             return 7
 
-    def dispatch(self, path, verb):
+    def dispatch(self, path, verb, sent=None):
+        """`sent` = {'path', 'verb'}: what the client sends; a before_request hook then rewrites PATH_INFO / REQUEST_METHOD
+        to `path` / `verb` — the request as it is AT DISPATCH TIME decides the route"""
         app = self.app
         # direct: Ombott.to_route on the request's own view of path and method
         rp = '/' + path.lstrip('/')
@@ -312,9 +314,29 @@ class App:
         env = environ(verb or 'GET', pinfo)
         if verb is None:
             del env['REQUEST_METHOD']          # Request.method defaults to GET
-        body = app(env, start_response)
-        for _ in body:
-            pass
+        rewrite = None
+        if sent is not None:
+            try:
+                env['PATH_INFO'] = sent['path'].encode('utf8').decode('latin1')
+            except UnicodeError:
+                return dict(direct=direct, wsgi=dict(status=-1))
+            env['REQUEST_METHOD'] = sent['verb']
+
+            def rewrite():
+                e = app.request.environ
+                e['PATH_INFO'] = path                  # the decoded form, as _handle leaves it
+                if verb is None:
+                    e.pop('REQUEST_METHOD', None)
+                else:
+                    e['REQUEST_METHOD'] = verb
+            app.add_hook('before_request', rewrite)
+        try:
+            body = app(env, start_response)
+            for _ in body:
+                pass
+        finally:
+            if rewrite is not None:
+                app.remove_hook('before_request', rewrite)
         w = dict(status=got.get('status'), calls=self.box['t'])
         if got.get('status') == 405:
             allow = [v for k, v in got['headers'] if k.lower() == 'allow']
@@ -324,10 +346,27 @@ class App:
 
 
 MKINDS = ['gen', 'map', 'iter', 'tuple', 'dict_keys', 'set']
+STR_KINDS = ['strsub', 'enum', 'httpmethod']         # a verb that is an instance of a SUBCLASS of str
+
+
+class _StrSub(str):
+    pass
+
+
+def _str_kind(m, kind):
+    import enum
+    import http
+    if kind == 'httpmethod' and hasattr(http, 'HTTPMethod') and m in http.HTTPMethod.__members__:
+        return http.HTTPMethod(m)
+    if kind == 'enum':
+        return enum.Enum('Verb', [('M', m)], type=str).M
+    return _StrSub(m)
 
 
 def iterable_of(methods, kind):
     """the method argument as another kind of iterable (one-shot ones included): the registration must not depend on it"""
+    if kind in STR_KINDS:
+        return _str_kind(methods, kind) if isinstance(methods, str) else [_str_kind(m, kind) for m in methods]
     if kind is None or not isinstance(methods, list):
         return methods
     if kind == 'gen':
@@ -800,15 +839,17 @@ def render_rule(rng, segs, flavour=None):
 
 SAMPLE = {
     'plain': ['v', 'abc', 'ab', '7', 'a b', 'é', '', 'x.y', 'a\rb', '\r', '\n', '\x00', 'A'],
-    'int': ['12', '-3', '007', '١٢', '5x', '', '-', '1.5'],
-    'float': ['1.5', '-2', '3.', '.5', '1e3', '٣.٤'],
-    're': ['abc', 'a', 'cab', 'abd', '', 'x'],
+    'int': ['12', '-3', '007', '١٢', '5x', '', '-', '1.5', '12\n', '\n12'],
+    'float': ['1.5', '-2', '3.', '.5', '1e3', '٣.٤', '1.5\n'],
+    're': ['abc', 'a', 'cab', 'abd', '', 'x', 'abc\n', 'a\nb'],
     're0': ['abc', '', 'x', 'b'],
-    'path': ['p/q', 'p', 'a/b/c', '', 'p//q'],
+    # line-boundary characters: '.' does not match LF, '$' tolerates ONE trailing LF
+    'path': ['p/q', 'p', 'a/b/c', '', 'p//q', 'p\nq', 'p/q\n', '\n', 'a\n/b', 'p\n\n', 'p\x85q', 'p\u2028q', 'p\x0bq', 'p\x0c', 'p/\x1cq',
+             'p\r\nq'],
 }
 
 
-SAMPLE_RX = ['42', '7', 'abc', 'a', 'cab', 'xab', '', '4x', 'b7', '007', '1.50', '-3']
+SAMPLE_RX = ['42', '7', 'abc', 'a', 'cab', 'xab', '', '4x', 'b7', '007', '1.50', '-3', '42\n', 'a\nb']
 
 
 def instantiate(rng, segs):
@@ -887,8 +928,10 @@ def vary_add(rng, c):
         c['meta'] = rng.randrange(1, 5)
     if isinstance(ms, list) and len(ms) == 1 and rng.random() < 0.4:
         c['methods'] = ms[0]
+        if rng.random() < 0.5:
+            c['mkind'] = rng.choice(STR_KINDS)
     elif isinstance(c['methods'], list) and rng.random() < 0.5:
-        c['mkind'] = rng.choice(MKINDS)
+        c['mkind'] = rng.choice(MKINDS + ['strsub', 'enum'])
     return c
 
 
